@@ -25,6 +25,8 @@ from ..report import Check
 from ..typed import TypeOracle
 from ..typemodel import TCls, TypeTreeHooks, t
 
+T_BASE = 'pytezos.michelson.types.base.MichelsonType'
+
 M = 'pytezos.michelson'
 MT = f'{M}.types.base.MichelsonType'
 READ = ('field_name', 'type_name')
@@ -232,6 +234,60 @@ def run(repo: Repo, chk: Check) -> None:
                        {'annotated': vrepr(r)[:200], 'unannotated': vrepr(ref[opname])[:200]},
                        what=f'{opname} on a comb with {name} gives {vrepr(r)[:120]} but {vrepr(ref[opname])[:120]} without annotations')
     chk.minimum('comb re-annotations', nvar, 3 * 2 + 9 * 2 + 27 * 2 - 2)
+
+    # ---- 3 stripping annotations: get_anon_type / create_type, interpreted through the REAL constructors ---------------------------------
+    # Instructions re-wrap values in fresh parametric types built from `get_anon_type()` of the component (SOME, LEFT, CONS, PAIR, map values ...);
+    # the constructors of option/list/set/map/... reject an argument type that still carries a field annotation.  So the anonymous type of a
+    # class must carry neither annotation, whatever the annotations of the class, and must keep the argument types.
+    chk.set_clause('C17.3')
+    from ..absint import Builtin
+
+    class RealTypeHooks(TypeTreeHooks):
+        def call(self, it, callee, args, kwargs, node):
+            if isinstance(callee, Builtin) and callee.name == 'type' and len(args) == 3 and isinstance(args[2], dict) and args[1] and isinstance(args[1][0], TCls):
+                d = args[2]
+                return TCls(args[1][0].prim, list(d.get('args', [])), d.get('field_name'), d.get('type_name'))
+            if isinstance(callee, FuncRef) and callee.fi is not None and isinstance(callee.self_val, TCls):
+                if callee.fi.name == 'get_anon_type':
+                    return NotImplemented if False else it.call_function(callee, args, kwargs, node, force_inline=True)
+                if callee.fi.name in ('is_comparable', 'is_big_map_friendly', 'is_pushable', 'is_packable', 'is_duplicable'):
+                    return True
+            return super().call(it, callee, args, kwargs, node)
+
+    def same_args(a: TCls, b: TCls) -> bool:
+        return a.prim == b.prim and len(a.args) == len(b.args) and all(x.key() == y.key() for x, y in zip(a.args, b.args))
+
+    nat, st, by = t('nat'), t('string'), t('bytes')
+    samples = {
+        'pair %x :y nat string': t('pair', nat, st, f='x', n='y'),
+        'pair %x nat (pair %in string bytes)': t('pair', nat, t('pair', st, by, f='in'), f='x'),
+        'pair nat string (unannotated)': t('pair', nat, st),
+        'or %x (nat %a) (string %b)': t('or', t('nat', f='a'), t('string', f='b'), f='x'),
+        'option %x nat': t('option', nat, f='x'),
+        'list :l nat': t('list', nat, n='l'),
+        'map %m nat string': t('map', nat, st, f='m'),
+        'nat %n': t('nat', f='n'),
+    }
+    nanon = 0
+    for label, tc in samples.items():
+        it3 = Interp(repo, RealTypeHooks(repo), max_depth=12)
+        it3.max_recursion = 6
+        res = it3.run_paths(lambda i, tc=tc: i.call(i.getattr(tc, 'get_anon_type', None), [], {}, None))
+        outs = [p.value for p in res if p.outcome == 'return']
+        ok = len(res) == 1 and len(outs) == 1 and isinstance(outs[0], TCls) and outs[0].field_name is None and outs[0].type_name is None and same_args(outs[0], tc)
+        nanon += 1
+        chk.ob('R-FLOW', f'{T_BASE}.get_anon_type', ok, f'{label}: the anonymous type has the same arguments and no field / type annotation', repo.find_method(T_BASE, 'get_anon_type').loc,
+               {'result': [repr(o) for o in outs][:2] or [vrepr(p.value)[:80] for p in res][:2]},
+               what=f'get_anon_type of `{label}` gives {[repr(o) for o in outs][:1] or [vrepr(p.value)[:80] for p in res][:1]}: the annotation survives (or the arguments change), so '
+                    'wrapping a component taken out of an annotated pair (CDR ; SOME, GET n ; CONS ...) fails or yields a different type than for the unannotated program')
+        # and naming through create_type
+        res = Interp(repo, RealTypeHooks(repo), max_depth=12).run_paths(
+            lambda i, tc=tc: i.call(i.getattr(tc, 'create_type', None), [], {'args': list(tc.args), 'annots': ['%fld', ':typ']}, None))
+        outs = [p.value for p in res if p.outcome == 'return']
+        ok2 = len(outs) == 1 and isinstance(outs[0], TCls) and outs[0].field_name == 'fld' and outs[0].type_name == 'typ' and same_args(outs[0], tc)
+        chk.ob('R-FLOW', f'{T_BASE}.create_type', ok2, f'{label}: create_type(args, annots) records exactly the given annotations', repo.find_method(T_BASE, 'create_type').loc, {'result': [repr(o) for o in outs][:2]},
+               what=f'create_type on `{label}` with annotations %fld :typ gives {[repr(o) for o in outs][:1]}')
+    chk.minimum('anonymous-type samples', nanon, 8)
 
 
 def controls(chk: Check) -> None:
